@@ -440,7 +440,9 @@ func (c *config) genProbe(r *rand.Rand, proxyAddr, path string) probe {
 	case "exact", "case", "dot", "portvar", "affix", "none", "junk":
 		p.Host = variant(cls)
 		p.Eff = p.Host
-		p.Raw = cls != "exact" || r.Intn(4) == 0
+		// raw (hand-written request on a fresh connection) where the Go client could not send the
+		// value unchanged, and for a share of everything else
+		p.Raw = cls == "junk" || r.Intn(4) == 0
 	case "empty":
 		p.Host, p.Eff, p.Raw = "", "", true
 	case "nohost":
